@@ -27,6 +27,7 @@ def step (st : DState) (line : String) : DState × String :=
   | "store" :: args => let (s, r) := StoreD.handleStore st.store args impl; ({ st with store := s }, r)
   | "trk" :: args => let (s, r) := TrkD.handle st.trk args impl; ({ st with trk := s }, r)
   | "smetric" :: args => (st, SMetricD.handle args impl)
+  | "smetricw" :: args => (st, SMetricD.handleW args impl)
   | "kf" :: args => (st, KfD.handle args impl)
   | "box" :: args => (st, GeomD.handleBox args impl)
   | "geom" :: args => (st, GeomD.handleGeom args impl)
